@@ -1109,6 +1109,23 @@ theorem arguments_disjoint (p : Prog) (hwf : WF p) (b : Built) (tr : List Ev)
     (hne : g1 ≠ g2) : ∀ a ∈ lookupL b.argsOf g1, a ∉ lookupL b.argsOf g2 :=
   (reachable_graph_entered p hwf b tr h 0 (.inl rfl)).2 g1 g2 h1 h2 hne
 
+/-- **reachable_arguments_disjoint** (mini-round after round 10): the disjointness of argument lists
+    stated on the PROGRAM's graphs and for ANY origin of `arguments_of` — the requested list, or, for
+    a graph without one, `list(all − claimed)` computed by `discover`. In a successful build, for any
+    two different graphs some requested output depends on (main or bodies, any depth, nested or not)
+    the lists `arguments_of[G1]`, `arguments_of[G2]` share no element, and every element of such a
+    list is an Argument node. (No "requested list" proviso: the compile walk introduces whatever
+    `arguments_of` holds into the one flat `Scope` — invariant `ArgsSeg`.) -/
+theorem reachable_arguments_disjoint (p : Prog) (hwf : WF p) (b : Built) (tr : List Ev)
+    (h : build p = .ok (b, tr)) (G1 G2 : Nat) (h1 : G1 = 0 ∨ Below p G1 0)
+    (h2 : G2 = 0 ∨ Below p G2 0) (hne : G1 ≠ G2) :
+    (∀ a ∈ lookupL b.argsOf G1, a ∉ lookupL b.argsOf G2) ∧
+    (∀ a ∈ lookupL b.argsOf G1, p.isArg a = true) := by
+  refine ⟨arguments_disjoint p hwf b tr h G1 G2 (reachable_graph_entered p hwf b tr h G1 h1).1
+    (reachable_graph_entered p hwf b tr h G2 h2).1 hne, ?_⟩
+  obtain ⟨_, _, _, _, _, hargs⟩ := build_inv p hwf b tr h
+  exact hargs G1
+
 /-! ### non-vacuity: the nested-If program of the design probe, an outer leak, a sibling leak -/
 
 /-- ids: 0 x, 1 c (arguments); 2 e = Neg(x); 3 Neg(e) [outer else]; 4 Add(e, x) [inner then];
@@ -1233,6 +1250,23 @@ example : ∀ b tr, build exSharedArgs ≠ .ok (b, tr) := by
 /-- `arguments_disjoint` / `reachable_graph_entered` on the probe: all five graphs are entered -/
 example : ∃ b tr, build exNested = .ok (b, tr) ∧ Ev.enter 0 ∈ tr ∧ Ev.enter 2 ∈ tr ∧ Ev.enter 4 ∈ tr := by
   refine ⟨_, _, rfl, ?_, ?_, ?_⟩ <;> decide
+
+/-- `exLoop` with NO requested argument list on either graph: `arguments_of` is `list(all − claimed)` —
+    the body takes the formals it reaches (3, 4), main takes what is left (0); the lists are disjoint
+    (`reachable_arguments_disjoint` on graphs without a requested list) -/
+def exLoopNoLists : Prog :=
+  { nodes := exLoop.nodes, graphs := [⟨none, [6]⟩, ⟨none, [3, 5]⟩] }
+
+example : exLoopNoLists.WFb = true := by decide
+example : ∃ b tr, build exLoopNoLists = .ok (b, tr) ∧ lookupL b.argsOf 0 = [0] ∧
+    lookupL b.argsOf 1 = [3, 4] := by
+  refine ⟨_, _, rfl, ?_, ?_⟩ <;> decide
+example : ∃ b tr, build exLoopNoLists = .ok (b, tr) ∧
+    ∀ a ∈ lookupL b.argsOf 1, a ∉ lookupL b.argsOf 0 := by
+  have r6 : Reach exLoopNoLists.adjIn (.src 0) (.node 6) := Reach.step (Reach.refl _) (by decide)
+  refine ⟨_, _, rfl, ?_⟩
+  exact (reachable_arguments_disjoint exLoopNoLists (wf_of_wfb _ (by decide)) _ _ rfl 1 0
+    (.inr (Below.direct r6 (by decide))) (.inl rfl) (by decide)).1
 
 /-- sibling leak (design probe p4): the second Loop body uses the first body's argument 4. The
     Builder itself does not object (`build` succeeds, both bodies hang off the main graph); it is the
